@@ -4,6 +4,7 @@ package c11
 
 import (
 	"context"
+	"crypto/tls"
 	"errors"
 	"fmt"
 	"net"
@@ -17,9 +18,11 @@ import (
 	"github.com/emersion/go-message/textproto"
 	"github.com/emersion/go-smtp"
 	mockdns "github.com/foxcpp/go-mockdns"
+	mtasts "github.com/foxcpp/go-mtasts"
 	"github.com/foxcpp/maddy/framework/buffer"
 	"github.com/foxcpp/maddy/framework/module"
 	"github.com/foxcpp/maddy/internal/target/remote"
+	"verifkit/certs"
 	"verifkit/prng"
 	"verifkit/rep"
 	"verifkit/smtpd"
@@ -49,7 +52,8 @@ type rmRcpt struct {
 type rmDomAct struct {
 	Mail    string `json:"mail,omitempty"` // "", perm, temp, drop, rst
 	Rcpt    string `json:"rcpt,omitempty"` // "", perm
-	Dot     string `json:"dot,omitempty"`  // "", temp, drop
+	Dot     string `json:"dot,omitempty"`  // "", temp, drop, dropafter (250, then the connection is closed)
+	Rset    string `json:"rset,omitempty"` // "", drop (the RSET that precedes pooling is not answered)
 	DelayUS int    `json:"delay_us,omitempty"`
 }
 
@@ -62,15 +66,41 @@ type rmDelivery struct {
 	Acts     map[int]rmDomAct `json:"acts"` // per destination domain
 	End      string           `json:"end"`  // commit | abort | body-abort
 	Dwell    int              `json:"dwell"`
+	// message properties that select exit paths of connectionForDomain / AddRcpt
+	RequireTLS  bool `json:"requiretls,omitempty"`      // MAIL ... REQUIRETLS
+	Quarantine  bool `json:"quarantine,omitempty"`      // refused before any connection
+	TLSOverride bool `json:"tls_required_no,omitempty"` // TLS-Required: No - policies skipped, connection never pooled
+}
+
+// rmProfile describes how the next hop of one destination domain presents itself.
+type rmProfile struct {
+	// TLS: none (no STARTTLS) | good (chain the target trusts) | selfsigned (unauthenticated TLS after a retry) |
+	// handshake (STARTTLS accepted, handshake sabotaged -> plaintext retry) | reply454 (STARTTLS refused -> MX unusable)
+	TLS string `json:"tls"`
+	// Reach: ok | greet-refuse (554 greeting) | ehlo-refuse | unreachable (dial error) | dns-fail (MX lookup fails) |
+	// nxdomain | null-mx | first-mx-down (a dead preferred MX in front of the working one)
+	Reach string `json:"reach"`
+	// STS is the MTA-STS policy the domain publishes (used when the target has the mtasts policy):
+	// none | enforce (MX listed) | enforce-mismatch (MX not listed -> refused) | testing-mismatch
+	STS string `json:"sts"`
+	// AdvertiseRequireTLS: the server lists REQUIRETLS in EHLO.
+	AdvertiseRequireTLS bool `json:"advertise_requiretls"`
 }
 
 type rmScenario struct {
 	Cfg        limitsCfg      `json:"cfg"`
 	Text       string         `json:"limits_text"`
 	Domains    int            `json:"domains"`
+	Profiles   []rmProfile    `json:"profiles"`
 	Workers    int            `json:"workers"`
 	Plans      [][]rmDelivery `json:"plans"`
 	ReuseLimit int            `json:"conn_reuse_limit"`
+	// target-wide security configuration
+	ClientTLS   bool   `json:"client_tls"`              // false: tls client off (never STARTTLS)
+	MTASTS      bool   `json:"mtasts_policy"`           // mx_auth mtasts
+	LocalPolicy string `json:"local_policy,omitempty"`  // "", min-tls-encrypted, min-tls-authenticated, min-mx-mtasts
+	StrictRTLS  bool   `json:"relaxed_requiretls_off"`  // relaxed_requiretls no
+	NoOverride  bool   `json:"requiretls_override_off"` // requiretls_override no
 }
 
 func rmDomain(k int) string { return fmt.Sprintf("d%d.example", k) }
@@ -81,6 +111,23 @@ func genRemoteScenario(p *prng.R) rmScenario {
 	sc.Text = sc.Cfg.Text()
 	if p.Chance(1, 4) {
 		sc.ReuseLimit = -1 // pooling off
+	}
+	sc.ClientTLS = !p.Chance(1, 5)
+	sc.MTASTS = p.Chance(1, 2)
+	sc.LocalPolicy = prng.Pick(p, []string{"", "", "", "min-tls-encrypted", "min-tls-authenticated", "min-mx-mtasts"})
+	sc.StrictRTLS = p.Chance(1, 4)
+	sc.NoOverride = p.Chance(1, 5)
+	for k := 0; k < sc.Domains; k++ {
+		pr := rmProfile{
+			TLS:                 prng.Pick(p, []string{"none", "none", "good", "good", "good", "selfsigned", "handshake", "reply454"}),
+			Reach:               "ok",
+			STS:                 prng.Pick(p, []string{"none", "enforce", "enforce", "enforce-mismatch", "testing-mismatch"}),
+			AdvertiseRequireTLS: p.Bool(),
+		}
+		if p.Chance(1, 4) {
+			pr.Reach = prng.Pick(p, []string{"greet-refuse", "ehlo-refuse", "unreachable", "dns-fail", "nxdomain", "null-mx", "first-mx-down", "first-mx-down"})
+		}
+		sc.Profiles = append(sc.Profiles, pr)
 	}
 	nsrc := p.Range(1, 2)
 	per := p.Range(1, 4)
@@ -96,6 +143,9 @@ func genRemoteScenario(p *prng.R) rmScenario {
 				d.Src = -1
 			}
 			d.End = prng.Pick(p, []string{"commit", "commit", "abort", "body-abort"})
+			d.RequireTLS = p.Chance(1, 4)
+			d.Quarantine = p.Chance(1, 16)
+			d.TLSOverride = p.Chance(1, 8)
 			nd := 1
 			if sc.Domains > 1 && p.Chance(1, 3) {
 				nd = 2
@@ -111,7 +161,11 @@ func genRemoteScenario(p *prng.R) rmScenario {
 					d.Rcpts = append(d.Rcpts, rc)
 				}
 				var a rmDomAct
-				switch p.Weighted([]int{5, 2, 1, 1, 1, 1, 1, 1}) {
+				switch p.Weighted([]int{5, 2, 1, 1, 1, 1, 1, 1, 1, 1}) {
+				case 8:
+					a.Dot = "dropafter"
+				case 9:
+					a.Rset = "drop"
 				case 1:
 					a.Mail = "perm"
 				case 2:
@@ -145,6 +199,80 @@ type rmStats struct {
 	bodyOK, bodyErr, commits, aborts        atomic.Int64
 	mailRejected, mailDropped, rcptRejected atomic.Int64
 	dotFailed                               atomic.Int64
+	greetRefused, ehloRefused, dialRefused  atomic.Int64
+	rsetDropped, closedAfterCommit          atomic.Int64
+	refusals                                sync.Map // exit path class -> *atomic.Int64
+}
+
+func (st *rmStats) refusal(class string) {
+	v, _ := st.refusals.LoadOrStore(class, new(atomic.Int64))
+	v.(*atomic.Int64).Add(1)
+}
+
+// classifyRcptErr names the exit path an AddRcpt error came from, by its
+// text. Evidence only - no verdict depends on it.
+func classifyRcptErr(err error) string {
+	t := err.Error()
+	switch {
+	case isCtxErr(err):
+		return "context"
+	case strings.Contains(t, "unauthenticated but required (REQUIRETLS)"):
+		return "requiretls_no_authenticated_tls"
+	case strings.Contains(t, "MX record authenticity (REQUIRETLS)"):
+		return "requiretls_mx_not_authenticated"
+	case strings.Contains(t, "quarantined"):
+		return "quarantined"
+	case strings.Contains(t, "null MX"):
+		return "null_mx"
+	case strings.Contains(t, "MX lookup error"):
+		return "mx_lookup_error"
+	case strings.Contains(t, "No usable MXs"):
+		switch {
+		case strings.Contains(t, "(MTA-STS)"):
+			return "no_usable_mx_mtasts_refusal"
+		case strings.Contains(t, "MX record authenticity") || strings.Contains(t, "unauthenticated but required"):
+			return "no_usable_mx_local_policy_refusal"
+		}
+		return "no_usable_mx_connect_failure"
+	case strings.Contains(t, "REQUIRETLS"):
+		return "requiretls_not_offered_by_server"
+	}
+	return "smtp_or_other"
+}
+
+var rmPKI struct {
+	once   sync.Once
+	mu     sync.Mutex
+	ca     *certs.CA
+	leaves map[string]tls.Certificate
+}
+
+func rmCA() *certs.CA {
+	rmPKI.once.Do(func() {
+		rmPKI.ca = certs.NewCA("c11 test CA")
+		rmPKI.leaves = map[string]tls.Certificate{}
+	})
+	return rmPKI.ca
+}
+
+// serverCert returns (and caches) the certificate of an MX host: signed by the
+// harness CA the target trusts, or self-signed.
+func serverCert(host string, selfSigned bool) tls.Certificate {
+	ca := rmCA()
+	rmPKI.mu.Lock()
+	defer rmPKI.mu.Unlock()
+	key := fmt.Sprintf("%s/%v", host, selfSigned)
+	if c, ok := rmPKI.leaves[key]; ok {
+		return c
+	}
+	var c tls.Certificate
+	if selfSigned {
+		c = certs.SelfSigned(certs.LeafOpts{DNSNames: []string{host}}).TLSCertificate()
+	} else {
+		c = ca.Leaf(certs.LeafOpts{DNSNames: []string{host}}).TLSCertificate()
+	}
+	rmPKI.leaves[key] = c
+	return c
 }
 
 // deliveryOf parses the worker/delivery ids out of "w<worker>k<n>@...".
@@ -182,10 +310,30 @@ func runRemoteCases(t *testing.T, r *rep.Reporter, env instrEnv) {
 			servers := make([]*smtpd.Server, sc.Domains)
 			var srvErr error
 			addrOf := map[string]string{}
+			refused := map[string]bool{} // MX hosts nobody listens on
 			for k := 0; k < sc.Domains; k++ {
 				k := k
 				var srv *smtpd.Server
-				cfg := smtpd.Config{PIPELINING: true, EightBitMIME: true, Script: func(ev smtpd.Event) *smtpd.Action {
+				prof := sc.Profiles[k]
+				mxName := "mx." + rmDomain(k)
+				cfg := smtpd.Config{PIPELINING: true, EightBitMIME: true, REQUIRETLS: prof.AdvertiseRequireTLS}
+				switch prof.TLS {
+				case "good", "selfsigned":
+					cfg.STARTTLS = true
+					cfg.TLS = &tls.Config{Certificates: []tls.Certificate{serverCert(mxName, prof.TLS == "selfsigned")}}
+				case "handshake", "reply454":
+					cfg.STARTTLS = true
+					cfg.StartTLSBroken = prof.TLS
+				}
+				cfg.Script = func(ev smtpd.Event) *smtpd.Action {
+					switch {
+					case ev.Stage == smtpd.StageConnect && prof.Reach == "greet-refuse":
+						st.greetRefused.Add(1)
+						return &smtpd.Action{Code: 554, Enh: "5.3.2", Text: []string{"no service here"}}
+					case ev.Stage == smtpd.StageEHLO && prof.Reach == "ehlo-refuse":
+						st.ehloRefused.Add(1)
+						return &smtpd.Action{Code: 550, Enh: "5.7.1", Text: []string{"go away"}}
+					}
 					w, dk, ok := deliveryOf(ev.From)
 					if !ok || w >= len(sc.Plans) || dk >= len(sc.Plans[w]) {
 						return nil
@@ -222,20 +370,45 @@ func runRemoteCases(t *testing.T, r *rep.Reporter, env instrEnv) {
 						case "drop":
 							st.dotFailed.Add(1)
 							return &smtpd.Action{DropBefore: true}
+						case "dropafter":
+							st.closedAfterCommit.Add(1)
+							return &smtpd.Action{DropAfter: true}
+						}
+					case smtpd.StageRset:
+						if a.Rset == "drop" {
+							st.rsetDropped.Add(1)
+							return &smtpd.Action{DropBefore: true}
 						}
 					}
 					return nil
-				}}
+				}
 				err := retryPorts(func() (e error) { srv, e = smtpd.New(cfg); return })
 				if err != nil {
 					srvErr = err
 					break
 				}
 				servers[k] = srv
-				mxName := "mx." + rmDomain(k)
-				zones[rmDomain(k)+"."] = mockdns.Zone{MX: []net.MX{{Host: mxName + ".", Pref: 10}}}
 				zones[mxName+"."] = mockdns.Zone{A: []string{"127.0.0.1"}}
 				addrOf[mxName] = srv.Addr()
+				switch prof.Reach {
+				case "dns-fail":
+					zones[rmDomain(k)+"."] = mockdns.Zone{Err: &net.DNSError{Err: "server misbehaving", Name: rmDomain(k), IsTemporary: true}}
+				case "nxdomain":
+					// no zone at all
+				case "null-mx":
+					zones[rmDomain(k)+"."] = mockdns.Zone{MX: []net.MX{{Host: ".", Pref: 0}}}
+				case "unreachable":
+					zones[rmDomain(k)+"."] = mockdns.Zone{MX: []net.MX{{Host: mxName + ".", Pref: 10}}}
+					delete(addrOf, mxName)
+					refused[mxName] = true
+				case "first-mx-down":
+					down := "mxdown." + rmDomain(k)
+					zones[down+"."] = mockdns.Zone{A: []string{"127.0.0.1"}}
+					refused[down] = true
+					zones[rmDomain(k)+"."] = mockdns.Zone{MX: []net.MX{{Host: down + ".", Pref: 5}, {Host: mxName + ".", Pref: 10}}}
+				default:
+					zones[rmDomain(k)+"."] = mockdns.Zone{MX: []net.MX{{Host: mxName + ".", Pref: 10}}}
+				}
 			}
 			defer func() {
 				for _, s := range servers {
@@ -258,19 +431,65 @@ func runRemoteCases(t *testing.T, r *rep.Reporter, env instrEnv) {
 				if err != nil {
 					return nil, err
 				}
-				real, ok := addrOf[strings.TrimSuffix(host, ".")]
+				host = strings.TrimSuffix(host, ".")
+				real, ok := addrOf[host]
 				if !ok {
-					// the target dials the resolved address: all A records are 127.0.0.1, one server per MX name;
-					// fall back to resolving by the name the target used for the lookup
-					return nil, fmt.Errorf("c11 dialer: unknown host %q", host)
+					if refused[host] {
+						st.dialRefused.Add(1)
+					}
+					return nil, &net.OpError{Op: "dial", Net: network, Err: errors.New("connection refused (c11 dialer: nobody listens on " + host + ")")}
 				}
 				var d net.Dialer
 				return d.DialContext(ctx, "tcp", real)
 			}
-			tgt, err := remote.VerifNewTarget(remote.VerifTargetOpts{
-				Name: fmt.Sprintf("c11_remote_%d", idx), Resolver: resolver, Dialer: dialer, NoTLS: true,
+			opts := remote.VerifTargetOpts{
+				Name: fmt.Sprintf("c11_remote_%d", idx), Resolver: resolver, Dialer: dialer,
 				Limits: g, ConnReuseLimit: sc.ReuseLimit,
-			})
+			}
+			if sc.ClientTLS {
+				opts.TLSConfig = &tls.Config{RootCAs: rmCA().Pool()}
+			} else {
+				opts.NoTLS = true
+			}
+			no := false
+			if sc.StrictRTLS {
+				opts.RelaxedRequireTLS = &no
+			}
+			if sc.NoOverride {
+				opts.RequireTLSOverride = &no
+			}
+			// production order of the policies: mtasts ... local_policy
+			if sc.MTASTS {
+				pol, err := remote.VerifMTASTSPolicy(func(ctx context.Context, domain string) (*mtasts.Policy, error) {
+					for k := 0; k < sc.Domains; k++ {
+						if domain != rmDomain(k) {
+							continue
+						}
+						switch sc.Profiles[k].STS {
+						case "enforce":
+							return &mtasts.Policy{Mode: mtasts.ModeEnforce, MaxAge: 86400, MX: []string{"mx." + rmDomain(k), "mxdown." + rmDomain(k)}}, nil
+						case "enforce-mismatch":
+							return &mtasts.Policy{Mode: mtasts.ModeEnforce, MaxAge: 86400, MX: []string{"other." + rmDomain(k)}}, nil
+						case "testing-mismatch":
+							return &mtasts.Policy{Mode: mtasts.ModeTesting, MaxAge: 86400, MX: []string{"other." + rmDomain(k)}}, nil
+						}
+					}
+					return nil, errors.New("c11: no MTA-STS policy published")
+				}, nil)
+				if err != nil {
+					t.Fatalf("case %d: mtasts policy: %v", idx, err)
+				}
+				opts.Policies = append(opts.Policies, pol)
+			}
+			switch sc.LocalPolicy {
+			case "min-tls-encrypted":
+				opts.Policies = append(opts.Policies, remote.VerifLocalPolicy(module.TLSEncrypted, module.MXNone))
+			case "min-tls-authenticated":
+				opts.Policies = append(opts.Policies, remote.VerifLocalPolicy(module.TLSAuthenticated, module.MXNone))
+			case "min-mx-mtasts":
+				opts.Policies = append(opts.Policies, remote.VerifLocalPolicy(module.TLSNone, module.MX_MTASTS))
+			}
+			tgt, err := remote.VerifNewTarget(opts)
 			if err != nil {
 				t.Fatalf("case %d: remote target: %v", idx, err)
 			}
@@ -321,6 +540,34 @@ func runRemoteCases(t *testing.T, r *rep.Reporter, env instrEnv) {
 			r.Count("nexthop_dropped_at_mail", st.mailDropped.Load())
 			r.Count("nexthop_rcpt_rejected", st.rcptRejected.Load())
 			r.Count("nexthop_data_failed", st.dotFailed.Load())
+			r.Count("nexthop_greeting_refused", st.greetRefused.Load())
+			r.Count("nexthop_ehlo_refused", st.ehloRefused.Load())
+			r.Count("nexthop_dial_refused", st.dialRefused.Load())
+			r.Count("nexthop_rset_dropped", st.rsetDropped.Load())
+			r.Count("nexthop_closed_after_commit", st.closedAfterCommit.Load())
+			exits := 0
+			st.refusals.Range(func(k, v any) bool {
+				r.Count("remote_rcpt_exit_"+k.(string), v.(*atomic.Int64).Load())
+				r.Distinct("remote_exit_paths", k.(string))
+				exits++
+				return true
+			})
+			tlsConns, reused := 0, 0
+			for _, s := range servers {
+				for _, cr := range s.Transcript() {
+					if cr.TLS {
+						tlsConns++
+					}
+					if len(cr.Txns) > 1 {
+						reused++
+					}
+				}
+			}
+			r.Count("nexthop_tls_connections", int64(tlsConns))
+			r.Count("nexthop_connections_reused", int64(reused))
+			for _, pr := range sc.Profiles {
+				r.Distinct("remote_domain_profiles", pr.TLS+"/"+pr.Reach)
+			}
 			conns := 0
 			for _, s := range servers {
 				conns += s.TotalConns()
@@ -336,9 +583,13 @@ func runRemoteCases(t *testing.T, r *rep.Reporter, env instrEnv) {
 				r.Sample(map[string]any{"layer": "remote", "limits": sc.Text, "workers": sc.Workers, "domains": sc.Domains})
 			}
 			failures := st.mailRejected.Load()+st.mailDropped.Load() > 0
-			shape := fmt.Sprintf("remote cfg=%s w=%d doms=%d reuse=%d sat=%v mailfail=%v rcptrej=%v dotfail=%v to=%v", sc.Cfg.Shape(), sc.Workers, sc.Domains, sc.ReuseLimit,
-				sat > 0, failures, st.rcptRejected.Load() > 0, st.dotFailed.Load() > 0, st.startCtxErr.Load() > 0)
-			c.Done(shape, sat > 0 || failures || st.startCtxErr.Load() > 0)
+			profs := ""
+			for _, pr := range sc.Profiles {
+				profs += pr.TLS + "/" + pr.Reach + "/" + pr.STS + ";"
+			}
+			shape := fmt.Sprintf("remote cfg=%s w=%d doms=%d reuse=%d tls=%v sts=%v local=%s prof=%s sat=%v mailfail=%v rcptrej=%v dotfail=%v to=%v exits=%d", sc.Cfg.Shape(), sc.Workers, sc.Domains, sc.ReuseLimit,
+				sc.ClientTLS, sc.MTASTS, sc.LocalPolicy, profs, sat > 0, failures, st.rcptRejected.Load() > 0, st.dotFailed.Load() > 0, st.startCtxErr.Load() > 0, exits)
+			c.Done(shape, sat > 0 || failures || st.startCtxErr.Load() > 0 || exits > 0)
 		})
 	}
 }
@@ -350,7 +601,8 @@ func runRemoteDelivery(tgt *remote.Target, w, k int, d rmDelivery, mon *insideMo
 		src = fmt.Sprintf("s%d.example", d.Src)
 		from = fmt.Sprintf("w%dk%d@%s", w, k, src)
 	}
-	meta := &module.MsgMetadata{ID: fmt.Sprintf("c11w%dk%d", w, k), OriginalFrom: from}
+	meta := &module.MsgMetadata{ID: fmt.Sprintf("c11w%dk%d", w, k), OriginalFrom: from, Quarantine: d.Quarantine, TLSRequireOverride: d.TLSOverride}
+	meta.SMTPOpts.RequireTLS = d.RequireTLS
 	ip := net.IPv4(127, 0, 0, 1)
 	if d.IP >= 0 {
 		ip = net.IPv4(198, 51, 100, byte(1+d.IP))
@@ -380,6 +632,7 @@ func runRemoteDelivery(tgt *remote.Target, w, k int, d rmDelivery, mon *insideMo
 				st.rcptCtxErr.Add(1)
 			}
 			st.rcptErr.Add(1)
+			st.refusal(classifyRcptErr(err))
 			continue
 		}
 		st.rcptOK.Add(1)
